@@ -171,46 +171,62 @@ def run(ctx):
 
 
 def check_serialize(ctx):
+    """The 78-byte payload, decided on typed arguments: the key is an int or a pair of ints, depth / child number are ints or
+    bytes, the network flag is True / False -- 16 modes; the code may select the version bytes and encodings in any way."""
     R = ctx.R
     fi = ctx.fn(B32 + "serialized_extended_key")
     ev = ctx.evaluator(opaque={"bits.base58.base58check", SMUL})
-    key, chain, depth, fpr, child, testnet = P("key"), P("chaincode", tm.BYTES), P("depth"), P("parent_key_fingerprint", tm.BYTES), P("child_no"), P("testnet", tm.BOOL)
-    INT, TUP = T("ext", ("builtins.int",)), T("ext", ("builtins.tuple",))
+    ev.typed_params = True
+    chain, fpr = P("chaincode", tm.BYTES), P("parent_key_fingerprint", tm.BYTES)
 
-    def ty_is(p, t):
-        return tm.cmp("is", T("typeof", (p,)), t)
+    def payload_of(val, kind):
+        val = rules.unfz(val)
+        return val.args[1][0] if kind == "return" and isinstance(val, T) and val.op == "app" and val.args[0] == "bits.base58.base58check" else None
+
+    def key_ok(got_tail, key_int, key):
+        if key_int:
+            return tm.veq(got_tail, tm.cat([b"\x00", be(key, 32)]))
+        return serP_ok(got_tail, key[0], key[1])
+
     n = 0
     for key_int, tn, d_int, c_int in itertools.product((True, False), repeat=4):
-        ev.assumptions = {ty_is(key, INT): key_int, ty_is(key, TUP): not key_int, tm.cmp("eq", tm.length(key), 2): True,
-                          testnet: tn, ty_is(depth, INT): d_int, ty_is(child, INT): c_int}
-        s = ev.run(fi)
-        kind, val = rules.outcome(s)
+        key = P("key", tm.INT) if key_int else (P("Kx", tm.INT), P("Ky", tm.INT))
+        depth = P("depth", tm.INT if d_int else tm.BYTES)
+        child = P("child_no", tm.INT if c_int else tm.BYTES)
+        s = ev.run(fi, {"key": key, "chaincode": chain, "depth": depth, "parent_key_fingerprint": fpr, "child_no": child, "testnet": tn})
+        kind, val = rules.decided_outcome(s)
         version = {(True, False): VPRV_M, (True, True): VPRV_T, (False, False): VPUB_M, (False, True): VPUB_T}[(key_int, tn)]
-        got = val.args[1][0] if kind == "return" and isinstance(val, T) and val.op == "app" and val.args[0] == "bits.base58.base58check" else None
+        got = payload_of(val, kind)
         label = "key=%s testnet=%s depth=%s child_no=%s" % ("int" if key_int else "point", tn, "int" if d_int else "bytes", "int" if c_int else "bytes")
-        ok = isinstance(got, T) and got.op == "cat"
-        if ok:
-            parts = list(got.args)
-            dterm = be(depth, 1) if d_int else depth
-            cterm = be(child, 4) if c_int else child
-            if key_int:
-                want = tm.cat([version, dterm, fpr, cterm, chain, b"\x00", be(key, 32)])
-                ok = tm.veq(got, want)
-            else:
-                head = tm.cat([version, dterm, fpr, cterm, chain])
-                nh = len(head.args) if isinstance(head, T) and head.op == "cat" else 1
-                ok = tm.veq(tm.cat(parts[:nh]), head) and serP_ok(tm.cat(parts[nh:]), T("proj", (key, 0)), T("proj", (key, 1)))
+        head = tm.cat([version, be(depth, 1) if d_int else depth, fpr, be(child, 4) if c_int else child, chain])
+        ok = False
+        if isinstance(got, T) and got.op == "cat" and isinstance(head, T):
+            nh = len(head.args)
+            ok = tm.veq(tm.cat(list(got.args[:nh])), head) and key_ok(tm.cat(list(got.args[nh:])), key_int, key)
         R.check("C09.4", "LAYOUT", fi, label, ok, "extended key payload for %s is %s" % (label, tm.show(got)[:300]),
                 example="an integer child number (it must be serialised from child_no, 4 bytes big-endian)")
         n += 1
-    ev.assumptions = {}
     R.floor("C09.4", n, 16, "xkey_serialisation_modes")
-    # root key
+    # something that is neither an int nor a pair is refused
+    for label, key in (("a 3-tuple", (P("a", tm.INT), P("b", tm.INT), P("c", tm.INT))), ("a bytes key", P("key", tm.BYTES))):
+        s = ev.run(fi, {"key": key, "chaincode": chain, "depth": P("depth", tm.INT), "parent_key_fingerprint": fpr, "child_no": P("child_no", tm.INT), "testnet": False})
+        kind, val = rules.decided_outcome(s)
+        R.check("C09.4", "DOM", fi, "%s is refused" % label, kind == "raise", "serialized_extended_key accepts %s as key (%s)" % (label, kind))
+    # root key: through the real serializer, for both key kinds and networks
     fr = ctx.fn(B32 + "root_serialized_extended_key")
-    ev2 = ctx.evaluator(opaque={B32 + "serialized_extended_key"})
-    v = ev2.run(fr).value()
-    want = tm.app(B32 + "serialized_extended_key", [P("master_key"), P("master_chain_code", tm.BYTES), b"\x00", b"\x00" * 4, b"\x00" * 4, P("testnet", tm.BOOL)], ty=tm.BYTES)
-    R.check("C09.4", "LAYOUT", fr, "root key: depth 0, zero fingerprint, zero child number", tm.veq(v, want), "root key: %s" % tm.first_diff(v, want))
+    for key_int, tn in itertools.product((True, False), repeat=2):
+        key = P("master_key", tm.INT) if key_int else (P("Kx", tm.INT), P("Ky", tm.INT))
+        mc = P("master_chain_code", tm.BYTES)
+        s = ev.run(fr, {fr.params()[0]: key, fr.params()[1]: mc, "testnet": tn})
+        kind, val = rules.decided_outcome(s)
+        got = payload_of(val, kind)
+        version = {(True, False): VPRV_M, (True, True): VPRV_T, (False, False): VPUB_M, (False, True): VPUB_T}[(key_int, tn)]
+        head = tm.cat([version + b"\x00" * 9, mc])
+        ok = False
+        if isinstance(got, T) and got.op == "cat":
+            ok = tm.veq(tm.cat(list(got.args[:2])), head) and key_ok(tm.cat(list(got.args[2:])), key_int, key)
+        R.check("C09.4", "LAYOUT", fr, "root key (%s, testnet=%s): depth 0, zero fingerprint, zero child number" % ("private" if key_int else "public", tn), ok,
+                "root key payload is %s" % tm.show(got)[:200])
 
 
 def check_deserialize(ctx):
@@ -299,6 +315,21 @@ def check_path(ctx):
             cur = tm.app(B32 + "serialized_extended_key", [tm.idx(child, 0), tm.idx(child, 1), be(tm.add([1, tm.b2i(p_depth, "big")]), 1), fpr, be(i, 4), testnet], ty=tm.BYTES)
         return cur
 
+    def carried(v):
+        """deserialize(serialize(key, chain, depth, fingerprint, child, network)) gives those fields back (C09.4 / C09.5 decide
+        the two layouts): a derivation that re-parses every child and one that carries the decoded fields along are one term."""
+        def rule(t):
+            if isinstance(t, T) and t.op == "idx" and isinstance(t.args[0], T) and t.args[0].op == "app" and isinstance(t.args[1], int) and t.args[1] >= 0:
+                return T("proj", (t.args[0], t.args[1]))  # pair[i] and tuple unpacking name the same component
+            if isinstance(t, T) and t.op == "proj" and isinstance(t.args[0], T) and t.args[0].op == "app" and t.args[0].args[0] == B32 + "deserialized_extended_key":
+                inner = t.args[0].args[1]
+                x = inner[0] if inner else None
+                if isinstance(x, T) and x.op == "app" and x.args[0] == B32 + "serialized_extended_key" and len(x.args[1]) >= 5 and t.args[1] in (1, 2, 3, 4, 5):
+                    k_, c_, d_, f_, i_ = x.args[1][:5]
+                    return {1: d_, 2: f_, 3: i_, 4: c_, 5: k_}[t.args[1]]
+            return None
+        return tm.subst(v, rule)
+
     HH = 2 ** 31
     good = [("m", []), ("m/0", [0]), ("m/0'", [HH]), ("m/1/2'/3", [1, HH + 2, 3]), ("m/44'/0'/0'/0/5", [HH + 44, HH, HH, 0, 5]), ("m/2147483647", [HH - 1]), ("m/2147483647'", [2 * HH - 1]),
             ("M", []), ("M/0", [0]), ("M/7/8", [7, 8]), ("M/2147483647/1", [HH - 1, 1]), ("M/0'", [HH]), ("M/3/2147483648", [3, HH])]
@@ -310,7 +341,7 @@ def check_path(ctx):
         ev.assumptions = {pub_t: public, tm.lnot(pub_t): not public, prv_t: not public, tm.lnot(prv_t): public}
         k, v = rules.decided_outcome(ev.run(fi, {"path": path_s, "master_extended_key": mk}, use_defaults=True))
         want = expected(steps, public)
-        if not (k == "return" and tm.veq(v, want)):
+        if not (k == "return" and (tm.veq(v, want) or tm.veq(carried(v), carried(want)))):
             badp.append((path_s, k, tm.first_diff(v, want)[:200] if k == "return" else tm.show(v)[:100]))
     ev.assumptions = {}
     R.check("C09.6", "TERM-EQ", fi, "for %d concrete paths (m / M, hardened and normal steps, depth 0..5): each step = serialize(CKD(parent key, parent chain, i), depth+1, "
@@ -328,15 +359,22 @@ def check_path(ctx):
     R.check("C09.6", "DOM", fi, "m/ needs a private key, M/ a public key; malformed paths are refused", not refused,
             "derive_from_path(%r) with a %s extended key is %s %s instead of an error" % (refused[0] if refused else ("", "", "", "")),
             example=("path %r with a %s key" % refused[0][:2]) if refused else None)
-    # get_xpub
+    # get_xpub: decided on the four kinds of decoded key (version bytes x key kind), the decoded fields being arbitrary
     fx = ctx.fn("bits.wallet.hd.get_xpub")
-    sx = ev.run(fx)
-    xk = P("xkey", tm.BYTES)
-    d = tm.app(B32 + "deserialized_extended_key", [xk, False], ty=tm.ANY)
-    keyt = T("proj", (d, 5))
-    isint = tm.cmp("is", T("typeof", (keyt,)), T("ext", ("builtins.int",)))
-    want = tm.app(B32 + "serialized_extended_key", [tm.ite(isint, tm.app(B32 + "point", [keyt], ty=tm.TUPLE), keyt), T("proj", (d, 4)), T("proj", (d, 1)),
-                                                    T("proj", (d, 2)), T("proj", (d, 3)), tm.cmp("in", T("proj", (d, 0)), (VPRV_T, VPUB_T))], ty=tm.BYTES)
-    got = sx.value()
-    R.check("C09.6", "TERM-EQ", fx, "get_xpub: public key of the same node, all other fields carried over", tm.veq(got, want),
-            "get_xpub: %s" % tm.first_diff(got, want))
+    evx = ctx.evaluator(opaque={B32 + "deserialized_extended_key", B32 + "serialized_extended_key", B32 + "point", SMUL})
+    evx.typed_params = True
+    xk = P(fx.params()[0], tm.BYTES)
+    dterm = tm.app(B32 + "deserialized_extended_key", [xk, False], ty=tm.ANY)
+    dep, fpr, chn, chain = P("depth", tm.BYTES), P("fingerprint", tm.BYTES), P("child", tm.BYTES), P("chain", tm.BYTES)
+    for ver in (VPRV_M, VPRV_T, VPUB_M, VPUB_T):
+        private = ver in (VPRV_M, VPRV_T)
+        key = P("k", tm.INT) if private else (P("Kx", tm.INT), P("Ky", tm.INT))
+        evx.bind = {dterm: (ver, dep, fpr, chn, chain, key)}
+        kx, vx = rules.decided_outcome(evx.run(fx))
+        pub = tm.app(B32 + "point", [key], ty=tm.TUPLE) if private else key
+        want = tm.app(B32 + "serialized_extended_key", [pub, chain, dep, fpr, chn, ver in (VPRV_T, VPUB_T)], ty=tm.BYTES)
+        okx = kx == "return" and (tm.veq(vx, want) or tm.veq(tm.freeze(vx), tm.freeze(want)))
+        R.check("C09.6", "TERM-EQ", fx, "get_xpub of a %s %s key: public key of the same node, all other fields and the network carried over" % (
+            "testnet" if ver in (VPRV_T, VPUB_T) else "mainnet", "private" if private else "public"), okx,
+            "get_xpub: %s" % (tm.first_diff(vx, want) if kx == "return" else "%s %s" % (kx, tm.show(vx)[:100])))
+    evx.bind = {}
